@@ -50,7 +50,7 @@ def run(report, db, tier):
                      'play table and the arm reads only fields of that '
                      'class, in every version')
     paths = shared.name_agreement_ps(report, R7, db, P, S, pr, 'play')
-    pk = sy(fi.params[1])
+    pk = sy(fi.all_params[1])
     arms = {}
     for p in paths:
         arms.setdefault(shared.arm_of(p, pk), []).append(p)
@@ -161,7 +161,7 @@ def keep_alive(report, db, M, P, fi, arms):
                          fi.qualname, 'keep-alives are never answered: the '
                          'server times the client out')
         return
-    pk = sy(fi.params[1])
+    pk = sy(fi.all_params[1])
     sbk = db.get_class(SB_PLAY, 'KeepAlivePacket')
     cbk = db.get_class(CB_PLAY, 'KeepAlivePacket')
     prob = {}
@@ -230,7 +230,7 @@ def position(report, db, M, P, fi, arms):
                          fi.qualname, 'position packets are never '
                          'acknowledged')
         return
-    me, pk = sy(fi.params[0]), sy(fi.params[1])
+    me, pk = sy(fi.all_params[0]), sy(fi.all_params[1])
     conn = at(me, 'connection')
     tc = db.get_class(SB_PLAY, 'TeleportConfirmPacket')
     pl = db.get_class(SB_PLAY, 'PositionAndLookPacket')
@@ -323,7 +323,7 @@ def unknown_ids(report, db, S, M, P, fi, arms):
     R = report.rule('R11.3', 'unknown ids become generic packets built from '
                     'the per-frame buffer; the reactor has no arm for them')
     rp = M.method(M.reactor, 'read_packet')
-    me, stream = sy(rp.params[0]), sy(rp.params[1])
+    me, stream = sy(rp.all_params[0]), sy(rp.all_params[1])
     table = at(me, 'clientbound_packets')
     n_unknown = n_known = 0
     prob = {}
@@ -411,7 +411,7 @@ def disconnect(report, db, cg, S, M, P, fi, arms):
     # disconnect() leaves the connection marked as not connected on every
     # exit -- also when the final flush fails -- because that mark is what
     # lets the exit callback run
-    dme = sy(dc.params[0])
+    dme = sy(dc.all_params[0])
     nexits = 0
     for p in S.run(dc):
         if p.raises and len(p.outcome) > 3 and not p.flat(('store',)):
@@ -455,7 +455,7 @@ def disconnect(report, db, cg, S, M, P, fi, arms):
         if not sites:
             report.violation(R, 'exit:never', hx.path, hx.node, hx.qualname,
                              'the exit callback is never called')
-    me = sy(hx.params[0])
+    me = sy(hx.all_params[0])
     cb = at(me, 'handle_exit')
     prob = None
     ncalls = 0
